@@ -18,6 +18,7 @@ import (
 	"sort"
 	"strconv"
 	"strings"
+	"sync"
 	"time"
 
 	"golang.org/x/tools/go/ssa"
@@ -352,31 +353,40 @@ func cmdCheck(args []string) {
 		}
 	}
 
-	var reports []harnessReport
 	type cand struct {
 		v    Violation
 		file string
 	}
-	var cands []cand
-	var wits []Witness
-	var witFiles []string
-	funcs := map[string]int{}
-	var samples []interface{}
-	var problems []string
-	totalStates, totalTrans := 0, 0
-	nfile := 0
+	type hres struct {
+		rep      harnessReport
+		viols    []Violation
+		wits     []Witness
+		samples  []interface{}
+		problems []string
+		funcs    map[string]int
+		states   int
+		trans    int
+		fatal    string
+	}
+	var sel []HarnessCfg
 	for _, hc := range hcfgs {
 		if *only != "" && hc.Name != *only {
 			continue
 		}
-		rep := harnessReport{Name: hc.Name, Params: hc.Params}
+		sel = append(sel, hc)
+	}
+	results := make([]*hres, len(sel))
+	runOne := func(hc HarnessCfg) *hres {
+		hr := &hres{funcs: map[string]int{}}
+		rep := &hr.rep
+		rep.Name, rep.Params = hc.Name, hc.Params
 		if pkg.Func(hc.Name) == nil {
 			if hc.Optional {
 				rep.Skipped = "harness not available (its overlay file no longer type-checks against /repo)"
-				reports = append(reports, rep)
-				continue
+				return hr
 			}
-			inconclusive("harness %s not found", hc.Name)
+			hr.fatal = fmt.Sprintf("harness %s not found", hc.Name)
+			return hr
 		}
 		solvers := append([]string{hc.Solver}, hc.Cross...)
 		var first *RunStats
@@ -387,6 +397,9 @@ func cmdCheck(args []string) {
 			ex := &Explorer{prog: prog, pkg: pkg, harness: hc.Name, params: hc.Params, workers: *workers,
 				solver: sv, timeoutMs: 60000, unwind: 70, maxSteps: 2_000_000_000, witnessN: hc.Witness,
 				mapReverse: hc.MapReverse, openKF: openKF, seed: seed}
+			if len(sel) > 2 && ex.workers > 8 {
+				ex.workers = 8
+			}
 			if hc.Workers > 0 {
 				ex.workers = hc.Workers
 			}
@@ -424,47 +437,33 @@ func cmdCheck(args []string) {
 					rep.Params[k] = v
 				}
 				for f, c := range st.Funcs {
-					funcs[f] += c
+					hr.funcs[f] += c
 				}
-				totalStates += st.Done
-				totalTrans += st.Forks
+				hr.states = st.Done
+				hr.trans = st.Forks
 				for _, s := range st.Samples {
-					samples = append(samples, map[string]interface{}{"harness": hc.Name, "path": s})
+					hr.samples = append(hr.samples, map[string]interface{}{"harness": hc.Name, "path": s})
 				}
 				for _, e := range st.Errors {
-					problems = append(problems, hc.Name+": "+e)
+					hr.problems = append(hr.problems, hc.Name+": "+e)
 				}
 				if st.Incomplete {
-					problems = append(problems, hc.Name+": exploration incomplete (budget)")
+					hr.problems = append(hr.problems, hc.Name+": exploration incomplete (budget)")
 				}
 				if st.AssertUnknown > 0 {
-					problems = append(problems, fmt.Sprintf("%s: %d assertion queries unknown/timeout", hc.Name, st.AssertUnknown))
+					hr.problems = append(hr.problems, fmt.Sprintf("%s: %d assertion queries unknown/timeout", hc.Name, st.AssertUnknown))
 				}
 				if st.Solver.Errors > 0 {
-					problems = append(problems, fmt.Sprintf("%s: %d solver error lines (%s)", hc.Name, st.Solver.Errors, lastSolverError))
+					hr.problems = append(hr.problems, fmt.Sprintf("%s: %d solver error lines (%s)", hc.Name, st.Solver.Errors, lastSolverError))
 				}
 				if st.SortLong > 0 {
-					problems = append(problems, fmt.Sprintf("%s: payload sort model used beyond 12 elements", hc.Name))
+					hr.problems = append(hr.problems, fmt.Sprintf("%s: payload sort model used beyond 12 elements", hc.Name))
 				}
-				if st.Done == 0 {
-					problems = append(problems, hc.Name+": no path completed (vacuous)")
+				if st.Done == 0 && len(st.Violations) == 0 {
+					hr.problems = append(hr.problems, hc.Name+": no path completed (vacuous)")
 				}
-				for _, v := range st.Violations {
-					v.Property = id
-					nfile++
-					f := filepath.Join(outDir(), "replay", fmt.Sprintf("%s-%s-%d.json", id, hc.Name, nfile))
-					b, _ := json.MarshalIndent(v, "", " ")
-					os.WriteFile(f, b, 0o644)
-					cands = append(cands, cand{v, f})
-				}
-				for _, w := range st.Witnesses {
-					nfile++
-					f := filepath.Join(outDir(), "replay", fmt.Sprintf("%s-%s-w%d.json", id, hc.Name, nfile))
-					b, _ := json.Marshal(w)
-					os.WriteFile(f, b, 0o644)
-					wits = append(wits, w)
-					witFiles = append(witFiles, f)
-				}
+				hr.viols = st.Violations
+				hr.wits = st.Witnesses
 			} else {
 				if rep.Cross == nil {
 					rep.Cross = map[string]string{}
@@ -472,11 +471,62 @@ func cmdCheck(args []string) {
 				same := st.Paths == first.Paths && st.Done == first.Done && violKeys(st) == violKeys(first) && st.AssertUnknown == 0 && st.ErrorPaths == 0
 				rep.Cross[sv] = fmt.Sprintf("paths=%d done=%d violations=%s agree=%v solver_s=%.1f", st.Paths, st.Done, violKeys(st), same, st.Solver.Time.Seconds())
 				if !same {
-					problems = append(problems, fmt.Sprintf("%s: solver %s disagrees with %s (%s vs paths=%d done=%d violations=%s)", hc.Name, sv, rep.Solver, rep.Cross[sv], first.Paths, first.Done, violKeys(first)))
+					hr.problems = append(hr.problems, fmt.Sprintf("%s: solver %s disagrees with %s (%s vs paths=%d done=%d violations=%s)", hc.Name, sv, rep.Solver, rep.Cross[sv], first.Paths, first.Done, violKeys(first)))
 				}
 			}
 		}
-		reports = append(reports, rep)
+		return hr
+	}
+	var wg sync.WaitGroup
+	for i := range sel {
+		wg.Add(1)
+		go func(i int) {
+			defer wg.Done()
+			results[i] = runOne(sel[i])
+		}(i)
+	}
+	wg.Wait()
+	var reports []harnessReport
+	var cands []cand
+	var wits []Witness
+	var witFiles []string
+	funcs := map[string]int{}
+	var samples []interface{}
+	var problems []string
+	totalStates, totalTrans := 0, 0
+	nfile := 0
+	for i, hr := range results {
+		hc := sel[i]
+		if hr.fatal != "" {
+			inconclusive("%s", hr.fatal)
+		}
+		reports = append(reports, hr.rep)
+		for f, c := range hr.funcs {
+			funcs[f] += c
+		}
+		totalStates += hr.states
+		totalTrans += hr.trans
+		if len(hr.samples) > 3 {
+			hr.samples = hr.samples[:3]
+		}
+		samples = append(samples, hr.samples...)
+		problems = append(problems, hr.problems...)
+		for _, v := range hr.viols {
+			v.Property = id
+			nfile++
+			f := filepath.Join(outDir(), "replay", fmt.Sprintf("%s-%s-%d.json", id, hc.Name, nfile))
+			b, _ := json.MarshalIndent(v, "", " ")
+			os.WriteFile(f, b, 0o644)
+			cands = append(cands, cand{v, f})
+		}
+		for _, w := range hr.wits {
+			nfile++
+			f := filepath.Join(outDir(), "replay", fmt.Sprintf("%s-%s-w%d.json", id, hc.Name, nfile))
+			b, _ := json.Marshal(w)
+			os.WriteFile(f, b, 0o644)
+			wits = append(wits, w)
+			witFiles = append(witFiles, f)
+		}
 	}
 
 	// native replay of candidates and witnesses
